@@ -14,7 +14,7 @@
 (*              dynamic jumps to 0, odd, beyond the table, the halt address;        *)
 (*  table     - jump tables with z in {0..9, 255} and entry counts that overflow;   *)
 (*  loop      - programs that must run out of gas (self jump, host-call loop);      *)
-(*  sbrk      - small heap growth (bulk) and one large request (finding re-check).  *)
+(*  sbrk      - small heap growth (bulk) and one 32 MiB request (finding re-check).  *)
 (* The check script adds seeded bit flips of the `valid` blobs.                      *)
 (* Case: [tag, kind ("std" | "inner"), blob, al (argument length), gas, pc].        *)
 EXTENDS ProgramBlob, Json, TLC, SequencesExt
@@ -194,7 +194,7 @@ LoopCases == {Case("loop", "inner", b, 0, g, 0) : b \in LoopInner, g \in {10, 10
 
 \* ---------------------------------------------------------------- sbrk
 SbrkSmall == {InnerProg(<<>>, 0, <<LoadImm4(2, v), Sbrk(3, 2), Sbrk(4, 2), JumpInd(0, 0)>>) : v \in {<<0, 0, 0, 0>>, <<1, 0, 0, 0>>, <<0, 16, 0, 0>>, <<1, 16, 0, 0>>, <<0, 0, 1, 0>>}}
-SbrkBig == {InnerProg(<<>>, 0, <<LoadImm4(2, <<0, 0, 0, 8>>), Sbrk(3, 2), JumpInd(0, 0)>>)}      \* 128 MiB in one instruction
+SbrkBig == {InnerProg(<<>>, 0, <<LoadImm4(2, <<0, 0, 0, 2>>), Sbrk(3, 2), JumpInd(0, 0)>>)}      \* 32 MiB in one instruction
 SbrkCases == {Case("sbrk", "std", StdWrap(b), 0, 100, 0) : b \in SbrkSmall} \cup {Case("sbrkbig", "std", StdWrap(b), 0, 100, 0) : b \in SbrkBig}
              \cup {Case("sbrk", "inner", b, 0, 100, 0) : b \in SbrkSmall}
 
